@@ -651,6 +651,8 @@ type site struct {
 	file, fn, expr string
 	ord            int
 	line           int
+	pos            token.Pos
+	sortAfter      bool // a sort.* call follows the loop in the same function before the next map-range loop
 }
 
 func exprText(e ast.Expr) string {
@@ -677,9 +679,20 @@ func scanFile(p *pkgInfo, rel string, f *ast.File) {
 		en.bindFields(fd.Type.Params)
 		en.bindFields(fd.Type.Results)
 		seen := map[string]int{}
+		firstSite := len(sites)
+		var sortCalls []token.Pos
 		var walk func(n ast.Node) bool
 		walk = func(n ast.Node) bool {
 			switch n := n.(type) {
+			case *ast.CallExpr:
+				if se, ok := n.Fun.(*ast.SelectorExpr); ok {
+					if id, ok := se.X.(*ast.Ident); ok && id.Name == "sort" {
+						switch se.Sel.Name {
+						case "Sort", "Stable", "Strings", "Ints", "Slice", "SliceStable":
+							sortCalls = append(sortCalls, n.Pos())
+						}
+					}
+				}
 			case *ast.FuncLit:
 				en.bindFields(n.Type.Params)
 				en.bindFields(n.Type.Results)
@@ -760,7 +773,7 @@ func scanFile(p *pkgInfo, rel string, f *ast.File) {
 				}
 				if class != "notmap" {
 					txt := exprText(n.X)
-					s := site{file: rel, fn: name, expr: txt, ord: seen[txt], line: fset.Position(n.Pos()).Line}
+					s := site{file: rel, fn: name, expr: txt, ord: seen[txt], line: fset.Position(n.Pos()).Line, pos: n.Pos()}
 					seen[txt]++
 					if class == "map" {
 						sites = append(sites, s)
@@ -772,6 +785,20 @@ func scanFile(p *pkgInfo, rel string, f *ast.File) {
 			return true
 		}
 		ast.Inspect(fd.Body, walk)
+		// a sort call follows the loop before the next map-range loop of the function starts
+		for i := firstSite; i < len(sites); i++ {
+			next := token.Pos(1 << 60)
+			for k := firstSite; k < len(sites); k++ {
+				if sites[k].pos > sites[i].pos && sites[k].pos < next {
+					next = sites[k].pos
+				}
+			}
+			for _, sp := range sortCalls {
+				if sp > sites[i].pos && sp < next {
+					sites[i].sortAfter = true
+				}
+			}
+		}
 	}
 }
 
@@ -844,6 +871,14 @@ func main() {
 	sb.WriteString("(* GENERATED by gen/cmd/t4mapsites from the Go sources: do not edit.\n   Every `for ... range <map>` (file, enclosing function, ranged expression, ordinal). *)\n")
 	sb.WriteString("From Coq Require Import String List.\nImport ListNotations.\nOpen Scope string_scope.\n\n")
 	fmt.Fprintf(&sb, "Definition map_sites : list (string * string * string * nat) := %s.\n\n", emit(sites))
+	var withSort []site
+	for _, st := range sites {
+		if st.sortAfter {
+			withSort = append(withSort, st)
+		}
+	}
+	sb.WriteString("(* the sites followed, in the same function and before its next map-range loop, by a call of sort.Sort/Stable/Strings/Ints/Slice *)\n")
+	fmt.Fprintf(&sb, "Definition sites_with_sort_after : list (string * string * string * nat) := %s.\n\n", emit(withSort))
 	fmt.Fprintf(&sb, "Definition unresolved_range_sites : list (string * string * string * nat) := %s.\n\n", emit(unresolved))
 	fmt.Fprintf(&sb, "Definition range_stmt_count : nat := %d%%nat.\n", rangeCount)
 	if err := os.WriteFile(filepath.Join(os.Args[2], "MapSitesGen.v"), []byte(sb.String()), 0o644); err != nil {
@@ -851,7 +886,7 @@ func main() {
 	}
 	if os.Getenv("T4_VERBOSE") != "" {
 		for _, s := range sites {
-			fmt.Printf("MAP  %s:%d %s  range %s #%d\n", s.file, s.line, s.fn, s.expr, s.ord)
+			fmt.Printf("MAP  %s:%d %s  range %s #%d sortAfter=%v\n", s.file, s.line, s.fn, s.expr, s.ord, s.sortAfter)
 		}
 		for _, s := range unresolved {
 			fmt.Printf("???  %s:%d %s  range %s #%d\n", s.file, s.line, s.fn, s.expr, s.ord)
